@@ -239,6 +239,11 @@ def r15_3(chk, mod):
     reserved = all(tok in gtext for tok in ("_", "#", "data_", "loop_")) and (f"{sp}[0]" in gtext or "startswith" in gtext)
     chk.ob("R15.3", MOD, "needs_quote", "a string starting with a reserved token ('_', '#', 'data_', 'loop_') is quoted (bare, the reader takes the line "
            "for a data name, a comment or a new block and ends the loop)", reserved, fingerprint="quote-reserved", found=gtext[:200])
+    numeric = "NUM_ERR_REGEX" in " ".join(c.key() + str(r.value.key()) for r in nq.returns for c, pol in r.guards) or \
+        any(e.kind == "call" and ("NUM_ERR_REGEX" in e.value.key() or "parse_value" in e.value.key() or "float(" in e.value.key()) for e in nq.events)
+    chk.ob("R15.3", MOD, "needs_quote", "a string that the reader would take for a number ('123', '1e5', '1.50') is quoted, so that it comes back as a "
+           "string", numeric, fingerprint="quote-numeric", expected="quote when NUM_ERR_REGEX matches the whole string",
+           found="the predicate never looks at the number pattern")
     # one parse per value: parse_data_name hands the raw text to parse_value exactly once
     pd = mod.ev("Cif.parse_data_name")
     chk.saw(MOD, "Cif.parse_data_name")
